@@ -89,6 +89,20 @@ def togglesOp (t : TogglesSt) (ws : List String) : TogglesSt × String :=
       | .err => (t, "err " ++ showFlags t.st.flags)
       | .panic => (t, "panic " ++ showFlags t.st.flags)
     | _, _, _ => (t, "bad-op")
+  | ["setp", a, b, c] =>
+    let opt := fun (w : String) => if w == "-" then some none else (parseBit w).map some
+    match opt a, opt b, opt c with
+    | some a, some b, some c =>
+      match step (fun _ => .ok ()) t.st (.setPartial true a b c) with
+      | .ok s => ({ t with st := s }, "ok " ++ showFlags s.flags)
+      | .err => (t, "err " ++ showFlags t.st.flags)
+      | .panic => (t, "panic " ++ showFlags t.st.flags)
+    | _, _, _ => (t, "bad-op")
+  | ["touch"] =>
+    match step (fun _ => .ok ()) t.st (.touch true) with
+    | .ok s => ({ t with st := s }, "ok " ++ showFlags s.flags)
+    | .err => (t, "err " ++ showFlags t.st.flags)
+    | .panic => (t, "panic " ++ showFlags t.st.flags)
   | ["path", p, b] =>
     match parsePath p, (kvs [b]).lookup "base" with
     | some p, some bs =>
